@@ -213,4 +213,36 @@ def SemSt.inv (st : SemSt) : Prop := 0 < st.value → st.queue = []
 
 end Sem
 
+/-! ## Minimal mailbox / actor-existence semantics, enough to state the comm and actor counterexamples
+  CommImpl::irecv / isend (MailboxImpl queues): a send looks for the first pending receive of the mailbox and pairs with it
+  (sets `src_actor_`), otherwise it is queued; ActivityTestSimcall on a comm: `src_actor_ && dst_actor_` (MC mode).
+  Only the receive queue is modelled (a send on a mailbox without pending receive is outside this fragment). -/
+namespace CommSem
+
+structure CState where
+  sender : Int → Int             -- per comm id, -1 = not set
+  receiver : Int → Int
+  recvq : Int → List Int         -- per mailbox: comm ids of the pending receives, front first
+  ret : Int → Int                -- per actor: result of its last simcall
+  exists_ : Int → Bool           -- per actor: has it been created
+
+def upd {β : Type} (f : Int → β) (k : Int) (v : β) : Int → β := fun x => if x = k then v else f x
+
+/-- an actor can only fire a transition once it exists; COMM_TEST / COMM_ASYNC_SEND / RANDOM / ACTOR_CREATE are otherwise
+always enabled -/
+def enabled (s : CState) (t : Base) : Bool := s.exists_ t.aid
+
+def exec (s : CState) (t : Base) : CState :=
+  match t.kind with
+  | .COMM_ASYNC_SEND =>
+    match s.recvq t.mbox with
+    | c :: cs => { s with sender := upd s.sender c t.aid, recvq := upd s.recvq t.mbox cs }
+    | [] => s
+  | .COMM_TEST => { s with ret := upd s.ret t.aid (if s.sender t.comm != -1 && s.receiver t.comm != -1 then 1 else 0) }
+  | .ACTOR_CREATE => { s with exists_ := upd s.exists_ t.child true }
+  | .RANDOM => { s with ret := upd s.ret t.aid t.min }
+  | _ => s
+
+end CommSem
+
 end SgVerif.C39
